@@ -173,23 +173,20 @@ func (mq *MessageQueue) runQueue() {
 		case <-mq.outgoingWork:
 			mq.sendMessage()
 		case <-mq.done:
-			select {
-			case <-mq.outgoingWork:
-				for {
-					_, metadata, err := mq.extractOutgoingMessage()
-					if err == nil {
-						span := trace.SpanFromContext(metadata.ctx)
-						err := fmt.Errorf("message queue shutdown")
-						span.RecordError(err)
-						span.SetStatus(codes.Error, err.Error())
-						span.End()
-						mq.publishError(metadata, err)
-						mq.eventPublisher.Close(metadata.topic)
-					} else {
-						break
-					}
+			// fail whatever is still queued, whether or not its work signal has arrived yet
+			for {
+				_, metadata, err := mq.extractOutgoingMessage()
+				if err == nil {
+					span := trace.SpanFromContext(metadata.ctx)
+					err := fmt.Errorf("message queue shutdown")
+					span.RecordError(err)
+					span.SetStatus(codes.Error, err.Error())
+					span.End()
+					mq.publishError(metadata, err)
+					mq.eventPublisher.Close(metadata.topic)
+				} else if err != errEmptyMessage || mq.noBuilders() {
+					break
 				}
-			default:
 			}
 			if mq.sender != nil {
 				mq.sender.Close()
@@ -202,6 +199,12 @@ func (mq *MessageQueue) runQueue() {
 			return
 		}
 	}
+}
+
+func (mq *MessageQueue) noBuilders() bool {
+	mq.buildersLk.RLock()
+	defer mq.buildersLk.RUnlock()
+	return len(mq.builders) == 0
 }
 
 func (mq *MessageQueue) signalWork() {
